@@ -322,7 +322,16 @@ func (r *Report) Finish(verifDir string, wall float64, seed int) int {
 // importRules runs another property's rule function and files selected rules of it under this report, with the rule
 // ids renamed (from "C14-R1" to prefix+"C14R1"): a necessary condition that belongs to two properties is decided once
 // and reported by both checks.
+var importNesting int
+
 func (r *Report) importRules(run func(*World, *Report), prefix string, only map[string]bool) {
+	if importNesting > 0 {
+		// the imported rule function's own imports are not needed (rules are selected by their native ids), and
+		// following them would loop when two properties share rules both ways
+		return
+	}
+	importNesting++
+	defer func() { importNesting-- }()
 	sub := NewReport(r.W, r.Prop, r.Tier, nil)
 	run(r.W, sub)
 	ren := map[string]string{}
